@@ -355,7 +355,7 @@ def execute(plan):
                     add("nesting_changed_result", {"who": "outer", "at_fun_call": j})
                 if inner.result_digest() != solo[inner_i].result_digest() or inner.event_digest() != solo[inner_i].event_digest():
                     add("nesting_changed_result", {"who": "inner", "at_fun_call": j})
-                keys.add("nest|%s|%s|%s|%s" % (prepared[outer_i][1]["jac"], prepared[inner_i][1]["jac"], bool(outer.in_ls), prepared[outer_i][2] is not None))
+                keys.add("nest|%s|%s|%s|%s" % (prepared[outer_i][1]["jac"], prepared[inner_i][1]["jac"], bool(outer.fired["nest_in_ls"]), prepared[outer_i][2] is not None))
 
     # ---- sequencing: A, B, A ; A after a crashed / interrupted B
     b = mk(1).run()
